@@ -10,6 +10,8 @@ CLAIMS = {
          "Trusted: as C02 (Reals axioms for every theorem here). NOT proved: the floating-point error bound proportional to the condition number (needs a Higham-style analysis; the oracle checks 64*eps*kappa on random well-conditioned matrices and exactness on integer unimodular ones - testing). The aligned (SIMD-only) inv3x3 specialisation is outside the template trace (see C03)."),
  "C08": ("Theorems (field on the regenerated traces; all parameter values universally quantified under non-degeneracy hypotheses): the four fully-suffixed ortho and frustum variants send the 8 view-volume corners to the clip-cube corners of their convention (RH/LH x NO/ZO) with w>0 side stated as w = 1 / w = distance; perspective = symmetric frustum; perspectiveFov = perspective(aspect=w/h); infinitePerspective depth = 1-2n/d | 1-n/d; in each of the 4 clip-control configurations (model regenerated under each -D set) every unsuffixed/half-suffixed builder, project and unProject is expression-identical to the variant the macros select, and suffixed variants are configuration independent; project maps clip coordinates to the viewport rectangle and depth range.",
          "Trusted: as C02. tan/sin/cos are the real functions. Partial: the round trip unProject(project(p)) = p is NOT a theorem (oracle only); no rounding bounds; double via oracle only; tweakedInfinitePerspective/pickMatrix/ortho2D are traced but have no theorem yet."),
+ "C17": ("Theorems by reflexive check (vm_compute) over the catalogue regenerated from /repo: every one of ~3400 swizzle reads (member-function, operator and gtx free-function forms; all 2/3/4-letter words over xyzw/rgba/stpq for source lengths 2-4, free functions for 1-4) is the list of named input components in the named order; every writable operator swizzle changes exactly the named components; ~170 vector constructor signatures (all argument-shape compositions, scalar/vec1/int mixes, truncations, broadcast), matrix constructors from scalars/columns and quaternion constructors (both storage orders) place arguments left to right wrapped in exactly the static_cast node; completeness of the swizzle catalogue against a name list generated independently in Coq. Inputs are symbolic: all component values.",
+         "Trusted: Coq kernel + vm_compute (no axioms: Closed under the global context); translator T1 + g++ front end; gen_C17.py enumeration (cross-checked by the Coq-side completeness theorem for swizzles; constructor signatures are not cross-checked for completeness). Element type float (+int arguments); SIMD shuffle specialisations are under C03. Known finding (compile-time): 3-letter writable swizzles of a vec4 naming w are not assignable."),
 }
 props = [json.loads(l) for l in open('/verif/properties.jsonl')]
 checks = []
